@@ -487,10 +487,10 @@ retry_after_fb:
         if (kl > sizeof(key_slice_type)) {
             base_node* child = lv->get_next_layer();
             if (child == nullptr) {
+                // the link was removed meanwhile: read this layer again
                 if (early_abort) { return status::WARN_CONCURRENT_OPERATIONS; }
-//                goto retry_fetch_lv; // NOLINT
+                goto retry_from_root; // NOLINT
             }
-            // TODO: implement check and retry
 
             if (bnv_cb(bn->get_version_ptr(), v_at_fb)) {
                 return status::WARN_ABORTED_BY_USER;
@@ -501,6 +501,13 @@ retry_after_fb:
             auto child_border_node_and_v =
                 find_border(child, child_kt.get_key_slice(), child_kt.get_key_length(), check_status);
             border_node* target_border = std::get<0>(child_border_node_and_v);
+            if (check_status == status::WARN_RETRY_FROM_ROOT_OF_ALL ||
+                target_border == nullptr) {
+                // the next layer was emptied and unlinked meanwhile (its root
+                // is no longer a root): read this layer again
+                if (early_abort) { return status::WARN_CONCURRENT_OPERATIONS; }
+                goto retry_from_root; // NOLINT
+            }
             // save stack context
             ctx->stack_top().bn = bn;
             ctx->stack_top().key = kt;
